@@ -5,6 +5,7 @@ from c03 import stages_term
 import obs
 
 ID = "C13"
+VALIDATE_MIX = True
 REQUIRES = ["Agree", "C13Spec", "C13Proof", "Truth"]
 THEOREM_REQUIRES = ["C13"]
 THEOREMS = ["C13_holds_bool"]
